@@ -290,7 +290,7 @@ class Agent:
             handlers = self.eventHandlers[self.state]
 
             while len(self.events) > 0:
-                event = self.events.pop()
+                event = self.events.pop(0)
 
                 try:
                     handlers[event.name](event)
